@@ -2160,3 +2160,22 @@ def register_misc13(E):
 _old_register_all22=register_all
 def register_all(E):
     _old_register_all22(E); register_misc13(E)
+
+def _drain(e,run,it):
+    it=deref(it); out=[]
+    while True:
+        x=iter_next(e,run,it)
+        if x is None: break
+        out.append(x)
+    return out
+def m_iter_cmp(e,run,a,f):
+    xs=_drain(e,run,a[0]); ys=_drain(e,run,a[1])
+    return ordering(val_cmp(run,VecO(xs),VecO(ys)))
+def m_iter_eq(e,run,a,f):
+    xs=_drain(e,run,a[0]); ys=_drain(e,run,a[1])
+    return val_eq(VecO(xs),VecO(ys))
+def register_misc14(E):
+    E.model(r' as Iterator>::cmp$',m_iter_cmp); E.model(r' as Iterator>::eq$',m_iter_eq)
+_old_register_all23=register_all
+def register_all(E):
+    _old_register_all23(E); register_misc14(E)
